@@ -354,6 +354,29 @@ func genC01(e *emitter, r *rng, thorough bool) {
 			e.emit("oncurve.no", fmt.Sprintf("curve.oncurve %s %s", nhx(x1), nhx(a.y)))
 		}
 	}
+	// RESULTS with rare coordinates: A + (T - A) = T, 2 (T/2) = T, k (k^-1 T) = T for T a tiny-x / rare point
+	{
+		curve := bec.S256()
+		var ts []pt
+		ts = append(ts, tinyXPoints(2)...)
+		ts = append(ts, rarePoints(r, 1)...)
+		half := invN(big.NewInt(2))
+		for _, T := range ts {
+			a := mulG(modN(new(big.Int).SetBytes(r.bytes(32))))
+			na := a.neg()
+			dx, dy := curve.Add(T.x, T.y, na.x, na.y)
+			e.emit("add.rare-result", fmt.Sprintf("curve.add %s %s %s %s", nhx(a.x), nhx(a.y), nhx(dx), nhx(dy)))
+			e.emit("add.rare-result", fmt.Sprintf("curve.add %s %s %s %s", nhx(dx), nhx(dy), nhx(a.x), nhx(a.y)))
+			hx2, hy2 := curve.ScalarMult(T.x, T.y, half.Bytes())
+			e.emit("double.rare-result", fmt.Sprintf("curve.double %s %s", nhx(hx2), nhx(hy2)))
+			k := modN(new(big.Int).SetBytes(r.bytes(32)))
+			if k.Sign() != 0 {
+				bx, by := curve.ScalarMult(T.x, T.y, invN(k).Bytes())
+				e.emit("smul.rare-result", fmt.Sprintf("curve.smul %s %s %s", nhx(bx), nhx(by), hx(pad32(k.Bytes()))))
+				e.emit("smul.rare-result", fmt.Sprintf("impl.smul %s %s %s", nhx(bx), nhx(by), hx(pad32(k.Bytes()))))
+			}
+		}
+	}
 	for _, v := range []int64{0, 1, 2, 3, 7} {
 		for _, w := range []int64{0, 1, 2, 3, 7} {
 			e.emit("oncurve.small", fmt.Sprintf("curve.oncurve %x %x", v, w))
@@ -685,6 +708,39 @@ func genC03(e *emitter, r *rng, thorough bool) {
 					emitV("cons.hash>=N", q, pad32(eN.Bytes()), rr, ss)
 				}
 			}
+		}
+	}
+	// signatures whose nonce point R = u1 G + u2 Q IS a point with rare coordinates (tiny x, x^3 near a word boundary,
+	// ...): the conversion of the RESULT back to affine big integers is where a weakened final normalisation shows.
+	// R chosen, u1 and s free: P2 = R - u1 G, e = u1 s, r = x(R) mod N, Q = (r/s)^-1 P2.
+	{
+		curve := bec.S256()
+		var rs []pt
+		rs = append(rs, tinyXPoints(3)...)
+		rs = append(rs, rarePoints(r, 1)...)
+		for _, R := range rs {
+			rr := modN(R.x)
+			if rr.Sign() == 0 {
+				continue
+			}
+			u1 := modN(new(big.Int).SetBytes(r.bytes(32)))
+			ss := modN(new(big.Int).SetBytes(r.bytes(32)))
+			if u1.Sign() == 0 || ss.Sign() == 0 {
+				continue
+			}
+			p1 := mulG(u1)
+			nx, ny := p1.neg().x, p1.neg().y
+			p2x, p2y := curve.Add(R.x, R.y, nx, ny)
+			u2 := modN(new(big.Int).Mul(rr, invN(ss)))
+			qx, qy := curve.ScalarMult(p2x, p2y, invN(u2).Bytes())
+			q := pt{qx, qy}
+			if q.isInf() {
+				continue
+			}
+			ee := modN(new(big.Int).Mul(u1, ss))
+			emitV("cons.rareR", q, pad32(ee.Bytes()), rr, ss)
+			emitV("cons.rareR.twin", q, pad32(ee.Bytes()), rr, new(big.Int).Sub(curveN, ss))
+			emitV("cons.rareR.r+1", q, pad32(ee.Bytes()), new(big.Int).Add(rr, one), ss)
 		}
 	}
 	// signatures whose R has an x-coordinate in [N, P): r = x(R) - N is tiny.  Take the curve points with
